@@ -67,6 +67,17 @@ def run(chk):
                     chk.fail("%s enrolment from statistics held in Dask arrays differs from the same statistics in NumPy arrays" % kind, ctx)
             except Exception as e:
                 chk.fail("%s enrolment from statistics held in Dask arrays raises %r" % (kind, e), ctx)
+        if i % 10 == 3:
+            # a long recording (more than 10 000 frames) through the array entry point: ONE session, i.e. enroll([acc_stats(X)])
+            gL = gen.nprng(r)
+            XL = np.asarray(ubm.means)[gL.integers(0, C, size=12001)] + gL.normal(size=(12001, D)) * np.sqrt(np.asarray(ubm.variances).mean()) + np.linspace(0.0, 1.0, 12001)[:, None]
+            m.enroll_iterations = 2
+            ea_, es_ = m.enroll_using_array(XL), m.enroll([ubm.acc_stats(XL)])
+            chk.count(1, key=("enroll_using_array, 12001 frames", kind))
+            if not all(np.allclose(np.asarray(a_, dtype=float), np.asarray(b_, dtype=float), rtol=1e-9, atol=1e-12) for a_, b_ in zip(ea_, es_)):
+                chk.fail("%s: enroll_using_array on a recording of 12001 frames differs from enroll on the UBM statistics of the same recording (one session)" % kind,
+                         dict(ctx, frames=12001))
+            m.enroll_iterations = K
         if i % 5 == 4:
             # the same problem with the features in units 1e7 times larger (UBM variances of order 1e-14): the factors are the same
             # (x and y exactly, z up to the signs of D, which are kept) - nothing absolute is added to the variances anywhere
